@@ -25,6 +25,19 @@ CHECKS = {
     },
 }
 
+CHECKS["C03"] = {
+    "text": "Explicit TLA+ specification of instantiation and application (spec/Pipeline.tla): reference semantics (Inst, Plan, BigApply) and a small-step machine structured like the code (frame per pipeline level, one action per step taken or skipped, min-count). TLC checks, for every enumerated definition, machine = reference = stand-alone execution of the plan, inverse plan = reversed flipped forward plan, honest counts. Every enumerated behaviour is replayed into the real library: exact operands and counts in both directions on harness-defined probe operators, bit-identity of the pipeline with its steps applied one after another as stand-alone operators (probes and built-in stand-ins: utm, lcc, merc, cart, helmert, tmerc, curvature), and with the literal expansion.",
+    "design_ref": "DESIGN.md §5.3",
+    "note": "Bounded: definitions of <= 2 steps (quick) / 3 steps (thorough) over 5 probes and 6 macros x all modifier combinations x 5 layouts. Probe operators are defined by the harness; built-ins take part only relationally (their numerics are never an oracle). A lone top-level step carries no omit_*.",
+    "technique": "TLA+ spec + TLC exhaustive enumeration; TLC-generated behaviours replayed into the real library (exact and relational comparison)",
+}
+CHECKS["C04"] = {
+    "text": "Pipeline.tla's argument-binding rules ($n, $n(d), (d), literal, absent; step-local wins; caller arguments visible to every step and to nested macros) and the expansion operator (Flatten) with the TLC-checked invariant 'operator = its literal expansion'; MacroGuard.tla models resolution as a depth-first walk with a nesting guard and TLC checks termination (liveness under weak fairness) for every resource graph over three names (all self-referential and mutually recursive ones) and for chains/cycles up to length 60. All behaviours are replayed into the real library in a supervised child process (crash or hang of the code under test is attributed to the behaviour and reported).",
+    "design_ref": "DESIGN.md §5.4",
+    "note": "Bounded: 60 macros, argument sets of <= 1 (quick) / 2 (thorough) arguments from a pool of six, nesting <= 3 in the binding model; equivalence with the expansion is required up to 12 levels of nesting, beyond that only 'returns Ok or Err in bounded time, and if Ok equals the expansion'. The value of the recursion limit is not specified. Self-forwarding (q=$q) is not generated.",
+    "technique": "TLA+ spec + TLC (safety and liveness); TLC-generated behaviours replayed into the real library under a watchdog",
+}
+
 _claimed = set(CHECKS)
 _NA_FIXED = {
     "C05": NA_REASON_NUMERIC,
